@@ -83,10 +83,26 @@ def cvc5_check(smt2_text, timeout_s=None):
     return v, time.time() - t0
 
 
+CROSS = dict(asked=0, unsat=0, unknown=0, sat=0)
+
+
 def prove(assumptions, goal, timeout_ms=None, want_model=True):
     """-> (status, model, seconds, backend): status in discharged / refuted / undecided."""
     v, m, dt, be = check_sat(list(assumptions) + [z3.Not(goal)], timeout_ms, want_model=want_model)
     if v == 'unsat':
+        if os.environ.get('PV_CROSSCHECK') and be == 'z3':
+            # thorough tier: the other solver sees the same query; "discharged" needs that it does not say sat
+            s = _mk_solver(1000)
+            for f in list(assumptions) + [z3.Not(goal)]:
+                s.add(f)
+            v2, dt2 = cvc5_check(s.to_smt2(), timeout_s=int(os.environ.get('PV_CROSSCHECK_S', '4')))
+            CROSS['asked'] += 1
+            CROSS[v2 if v2 in CROSS else 'unknown'] += 1
+            STATS['cvc5_time'] += dt2
+            STATS['cvc5_queries'] += 1
+            STATS['cross_' + (v2 if v2 in ('sat', 'unsat') else 'unknown')] = STATS.get('cross_' + (v2 if v2 in ('sat', 'unsat') else 'unknown'), 0) + 1
+            if v2 == 'sat':
+                return 'undecided', None, dt + dt2, 'z3 unsat / cvc5 sat'
         return 'discharged', None, dt, be
     if v == 'sat':
         return 'refuted', m, dt, be
